@@ -52,7 +52,7 @@ SPEC = {
         "programs on which python3 raises are outside the subset; programs on which asp raises are not covered by the statement",
         "float64 conversion of NaN/Inf/out-of-range values is the amd64 one (-2^63); only relevant for the old // code path (mutation runs)",
         "string % formatting, format(), f-strings, str() of containers, min/max(key=), non-ASCII upper/lower/slices: direct oracle only where generated, not modelled",
-        "sorted with a key function on more than 12 elements: sort.Slice is not stable there (known finding sorted-not-stable-beyond-12); the model does not follow pdqsort, such programs go to the direct oracle only",
+        "sorted is modelled as the stable sort for every length (sort.SliceStable since the repair b20b4fa, pinned by the fact sortedSortFns); under the old fact value (sort.Slice) the model refuses keyed sorts of more than 12 elements",
         "dict literals are generated in sorted key order (asp dicts iterate in sorted order, Python's in insertion order)",
     ],
 }
@@ -72,6 +72,8 @@ Dry-runs on a scratch copy (VERIF_REPO=/var/tmp/mC16, ./check C16 quick), all co
  M7  interpreter.go rename local nobj -> rhs in interpretOps   GREEN (harmless)
  S2  round-2 seed: builtins.go sorted always sorts ascending and calls slices.Reverse for reverse=True   first version of the check MISSED it (sorted(key=) was oracle-only and
      hardly generated); after modelling key=/reverse=, the facts sortedReverse/sortedSortFns and the sorted-key generator: RED, see the VIOLATION line in the commit message
+ R5  builtins.go sorted: sort.SliceStable -> sort.Slice (re-introduces the repaired sorted-not-stable-beyond-12)   facts sortedSortFns flips, C16_facts_ok and C16_old_sort_beyond_12 fail;
+     the sorted-key-long generator gives the concrete failing program (class sorted-not-stable-beyond-12, no longer known)
 After the three repairs in /repo (fix: commits ec296ec, 04757e8, 95d3a82), the re-introducing mutations (scratch copies, ./check C16 quick):
  R1  objects.go  floorMod(i, o) -> i % o                       RED  VIOLATION violation-int-mod-go-sign.json (concrete program, class no longer known);
                                                                    facts intOps Modulo |-> "%", 4 theorems no longer check; model follows: 0 disagreements
